@@ -873,6 +873,8 @@ class LoadConst(DataflowOp):
 
     def port_kind(self, port: InPort | OutPort) -> tys.Kind:
         match port:
+            case InPort(_, -1) | OutPort(_, -1):
+                return tys.OrderKind()
             case InPort(_, 0):
                 return tys.ConstKind(self.type_)
             case OutPort(_, 0):
@@ -1216,6 +1218,8 @@ class Call(_CallOrLoad, Op):
 
     def port_kind(self, port: InPort | OutPort) -> tys.Kind:
         match port:
+            case InPort(_, -1) | OutPort(_, -1):
+                return tys.OrderKind()
             case InPort(_, offset) if offset == self._function_port_offset():
                 return tys.FunctionKind(self.signature)
             case _:
@@ -1300,6 +1304,8 @@ class LoadFunc(_CallOrLoad, DataflowOp):
 
     def port_kind(self, port: InPort | OutPort) -> tys.Kind:
         match port:
+            case InPort(_, -1) | OutPort(_, -1):
+                return tys.OrderKind()
             case InPort(_, 0):
                 return tys.FunctionKind(self.signature)
             case OutPort(_, 0):
